@@ -22,8 +22,17 @@ build_race() {
     exit 2
   fi
 }
+build_shovel() {
+  # the real binary for the route-level part of C19, from /repo's working tree (through the harness module's replace)
+  if ! go build -o "$VERIF_ROOT/.build/shovel" github.com/indexsupply/shovel/cmd/shovel 2>"$VERIF_ROOT/.build/build-shovel.log"; then
+    cat "$VERIF_ROOT/.build/build-shovel.log"
+    echo "INCONCLUSIVE property=C19 reason=cmd/shovel does not build"
+    exit 2
+  fi
+}
 case "${1:-}" in
-  build) build; build_race; exit 0 ;;
+  build) build; build_race; build_shovel; exit 0 ;;
+  C19) build C19; build_shovel; exec "$BIN" run C19 --tier "${2:-${VERIF_TIER:-quick}}" ;;
   replay) build; exec "$BIN" replay "$2" ;;
   C18) build C18; build_race C18; exec "$BIN" run C18 --tier "${2:-${VERIF_TIER:-quick}}" --worker-exe "$BIN-race" ;;
   C[0-9][0-9]) build "$1"; exec "$BIN" run "$1" --tier "${2:-${VERIF_TIER:-quick}}" ;;
